@@ -432,7 +432,7 @@ def run_c13(w: World, rep: Report):
             t1_pair(w, rep, 'C13.T1', lock, wn)
     c03_builders(w, rep, rule='C13.T1')
     from .report import depend
-    depend(rep, w, 'rules_c02', ('C02.R2', 'C02.R3', 'C02.R5'), 'C13.TD2',
+    depend(rep, w, 'rules_c02', ('C02.R1', 'C02.R2', 'C02.R3', 'C02.R4', 'C02.R5'), 'C13.TD2',
            'the signature instruction the locks rely on enforces the allowed-flags operand per bit, uses the one '
            'message builder and maps the verification result correctly (C02.R2/R3/R5)', floor=10)
     depend(rep, w, 'rules_c03', ('C03.R1', 'C03.R2'), 'C13.TD3',
@@ -501,7 +501,7 @@ def run_c14(w: World, rep: Report):
         _split_layout(w, rep, cx, lock)
     t1_pair(w, rep, 'C14.T1', 'make_delegate_key_lock', 'make_delegate_key_witness')
     from .report import depend
-    depend(rep, w, 'rules_c02', ('C02.R2', 'C02.R3', 'C02.R4', 'C02.R5'), 'C14.TD2',
+    depend(rep, w, 'rules_c02', ('C02.R1', 'C02.R2', 'C02.R3', 'C02.R4', 'C02.R5'), 'C14.TD2',
            'the signature instructions the delegation locks rely on (allowed flags per bit, one message builder, length '
            'guards, result mapping - C02.R2-R5)', floor=10)
     rep.explanation = (
@@ -568,7 +568,7 @@ def run_c15(w: World, rep: Report):
         if 'htlc' in lock:
             _hash_lock(w, rep, cx, lock)
     from .report import depend
-    depend(rep, w, 'rules_c02', ('C02.R2', 'C02.R3', 'C02.R4', 'C02.R5'), 'C15.TD2',
+    depend(rep, w, 'rules_c02', ('C02.R1', 'C02.R2', 'C02.R3', 'C02.R4', 'C02.R5'), 'C15.TD2',
            'the signature instruction both paths end in (allowed flags per bit, one message builder, length guards, '
            'result mapping - C02.R2-R5)', floor=10)
     rep.explanation = (
